@@ -485,7 +485,8 @@ enum cc_stat cc_array_subarray(CC_Array *ar, size_t b, size_t e, CC_Array **out)
     sub_ar->mem_calloc = ar->mem_calloc;
     sub_ar->mem_free   = ar->mem_free;
     sub_ar->size       = e - b + 1;
-    sub_ar->capacity   = sub_ar->size;
+    sub_ar->capacity   = ar->capacity;
+    sub_ar->exp_factor = ar->exp_factor;
 
     memcpy(sub_ar->buffer,
            &(ar->buffer[b]),
